@@ -460,7 +460,7 @@ var overridable = []struct {
 	{"--height", []string{"10", "50%", "~20", "100%"}}, {"--layout", []string{"default", "reverse", "reverse-list"}}, {"--prompt", []string{"> ", "$ ", ""}},
 	{"--pointer", []string{">", "*", ""}}, {"--marker", []string{">", "+"}}, {"--delimiter", []string{",", ":", "[,;]+"}}, {"--nth", []string{"1", "2..", "1,3"}},
 	{"--tiebreak", []string{"length", "end,index", "chunk"}}, {"--scheme", []string{"default", "path", "history"}}, {"--algo", []string{"v1", "v2"}},
-	{"--multi", []string{"1", "3", "10"}}, {"--info", []string{"default", "inline", "hidden", "inline-right"}}, {"--border", []string{"rounded", "sharp", "none", "double"}},
+	{"--multi", []string{"1", "3", "10"}}, {"--tmux", []string{"center", "bottom,40%", "left,30%"}}, {"--info", []string{"default", "inline", "hidden", "inline-right"}}, {"--border", []string{"rounded", "sharp", "none", "double"}},
 	{"--tabstop", []string{"2", "4", "8"}}, {"--query", []string{"a", "b", ""}}, {"--filter", []string{"a", "b"}}, {"--header", []string{"h1", "h2"}},
 	{"--header-lines", []string{"1", "2", "0"}}, {"--tail", []string{"5", "10"}}, {"--scroll-off", []string{"0", "2", "5"}}, {"--hscroll-off", []string{"3", "10"}},
 	{"--jump-labels", []string{"abc", "xyz12"}}, {"--ellipsis", []string{"..", "~"}}, {"--preview", []string{"echo {}", "cat {}", ""}}, {"--margin", []string{"1", "5%", "1,2"}},
@@ -591,8 +591,23 @@ func TestVerifC17_EnvPrecedence(t *testing.T) {
 			if d := nonFuncFieldsEqual(got, want); d != "" {
 				t.Fatalf("file %q env %q args %q: layered parse differs from the flat parse of %q in %s", file, env, args, all, d)
 			}
+			// --height and --tmux exclude each other: the one given later wins, across the sources
+			if a, b := heightTmuxOrder(got), heightTmuxOrder(want); a != b {
+				t.Fatalf("file %q env %q args %q: --height/--tmux given later is %q in the layered parse and %q in the flat parse of %q", file, env, args, a, b, all)
+			}
 		}
 	})
+}
+
+// heightTmuxOrder tells which of --height / --tmux the parser recorded as the later one.
+func heightTmuxOrder(o *Options) string {
+	if o.Tmux == nil || o.Height.index == 0 && o.Tmux.index == 0 {
+		return "n/a"
+	}
+	if o.Height.index > o.Tmux.index {
+		return "--height"
+	}
+	return "--tmux"
 }
 
 func shellQuote(s string) string { return "'" + strings.ReplaceAll(s, "'", `'\''`) + "'" }
